@@ -355,6 +355,16 @@ func c19FSReplay(i int, raw json.RawMessage) Result {
 					return *r
 				}
 			}
+			// a regular file is a template whatever its name looks like: dots in a row, blanks, multi-byte letters,
+			// characters that mean something in a URL
+			for _, rel := range []string{"v1..2/x", "list..item", "more...jet", "..hidden", "sp ace", "ünï/é", "a%20b", "a+b", "#frag", "q?x=1", "a.b.c/.d"} {
+				full := filepath.Join(dir, filepath.FromSlash(rel))
+				os.MkdirAll(filepath.Dir(full), 0o755)
+				os.WriteFile(full, []byte("v1:"+rel), 0o644)
+				if r := step("a file with an unusual name", rel, true, "v1:"+rel); r != nil {
+					return *r
+				}
+			}
 			os.RemoveAll(dir)
 		}
 	}
